@@ -760,7 +760,9 @@ class Parser(AttrParser):
             op_name = self.expect(
                 self.parse_optional_str_literal, "operation name expected"
             )
-            op_type = self._get_op_by_name(op_name)
+            # The generic format spells the full operation name: the enclosing
+            # dialects are not searched (they only shorten names in custom formats).
+            op_type = self._get_op_by_name(op_name, use_dialect_stack=False)
             dialect_name = op_type.dialect_name()
             self._parser_state.dialect_stack.append(dialect_name)
             op = self._parse_generic_operation(op_type)
@@ -785,14 +787,19 @@ class Parser(AttrParser):
 
         return op
 
-    def _get_op_by_name(self, name: str) -> type[Operation]:
+    def _get_op_by_name(
+        self, name: str, *, use_dialect_stack: bool = True
+    ) -> type[Operation]:
         """
         Get an operation type by its name.
+        Unless `use_dialect_stack` is false, a name that is not known is also looked
+        up in the dialects of the enclosing operations.
         Raises an error if the operation is not registered, and if unregistered
         dialects are not allowed.
         """
         if op_type := self.ctx.get_optional_op(
-            name, dialect_stack=self._parser_state.dialect_stack
+            name,
+            dialect_stack=self._parser_state.dialect_stack if use_dialect_stack else (),
         ):
             return op_type
         self.raise_error(f"Operation {name} is not registered")
